@@ -283,6 +283,11 @@ var c15ScriptStmts = func() []string {
 		}
 		out = append(out, s)
 	}
+	// a macro whose body does work of its own at expansion time (defines and calls a function the program also has, with
+	// a constant of the same name): the result does not depend on what the program evaluated before the expansion
+	out = append(out, "KK = 3; func hk(x) { x * KK }; println(hk(2))",
+		"mk5 = macro(y) { KK = 5; func hk(x) { x * KK }; if hk(2) == 10 { quote(\"ten\") } else { quote(\"not ten\") } }; println(mk5(1))",
+		"mc = macro(y) { func cnt(n) { if n == 0 { 0 } else { 1 + cnt(n - 1) } }; if cnt(3) == 3 { quote(unquote(y)) } else { quote(0) } }; println(mc(7))", "func cnt(n) { 99 }; println(cnt(3))")
 	out = append(out, "mq = macro(x) { quote(unquote(x) * 2) }", "w = mq(v + 1)", "println(mq(3))", "mr = macro(y) { quote(unquote(y) + 1) }", "println(mr(4))", "// a comment", "/* block\ncomment */", "long = [\n1,\n2,\n]"[0:0]+"long = [1,\n 2]", "s2 = \"multi\nline\"", "if v > 0 {\n println(\"pos\")\n} else {\n println(\"neg\")\n}")
 	return out
 }()
